@@ -134,9 +134,12 @@ class RZILTransformer(Transformer):
             raise ValueError(f"Operand {op.get_name()} already defined as parameter.")
         elif self.il_ops_holder.has_op(op.get_name()):
             known = self.il_ops_holder.get_op_by_name(op.get_name())
-            if known is op or type(known) is type(op):
+            if known is op or (
+                type(known) is type(op) and not self.gets_unique_name(op)
+            ):
                 return known
-            # Otherwise a variable is named like the op (e.g. "seq"). The op gets its unique name below.
+            # Otherwise a variable (or an op named after a variable: "jump_Rs_5")
+            # has the same name as the op by chance. The op gets its unique name below.
 
         num_id = self.il_ops_holder.get_op_count()
         op.set_num_id(num_id)
@@ -145,18 +148,23 @@ class RZILTransformer(Transformer):
                 NotImplementedError(f"{op} can not be inlined yet.")
             op.inlined = True
 
-        if (
+        if self.gets_unique_name(op):
+            op.set_name(f"{op.get_name()}_{num_id}")
+        self.il_ops_holder.add_op(op)
+        return op
+
+    @staticmethod
+    def gets_unique_name(op) -> bool:
+        """Variables, registers and hybrid temporaries are identified by their name.
+        Every other op gets an id appended to make its name unique."""
+        return (
             not isinstance(op, Variable)
             and not isinstance(op, Register)
             and not isinstance(op, ReturnValue)
             and not (
                 isinstance(op, LocalVar) and op.value_type.group & VTGroup.HYBRID_LVAR
             )
-        ):
-            # Those have already a unique name
-            op.set_name(f"{op.get_name()}_{num_id}")
-        self.il_ops_holder.add_op(op)
-        return op
+        )
 
     def fbody(self, items):
         self.ext.set_token_meta_data("fbody")
@@ -434,7 +442,7 @@ class RZILTransformer(Transformer):
         name = f'const_{items[0]}{items[1] if items[1] else ""}'
 
         holder = self.il_ops_holder
-        if name in holder.read_ops:
+        if name in holder.read_ops and isinstance(holder.read_ops[name], Number):
             return holder.read_ops[name]
         return self.add_op(
             Number(name, int(num_str, get_num_base_by_token(items[0])), v_type)
